@@ -108,8 +108,15 @@ def make_path(steps, spelling):
 
 
 def gen_value(rng):
-    k = rng.choice(['scalar', 'scalar', 'opaque', 'list', 'dict', 'spec', 'texpr', 'selfref', 'tleaves'])
+    k = rng.choice(['scalar', 'scalar', 'opaque', 'list', 'dict', 'spec', 'texpr', 'selfref', 'tleaves', 'subclass-dict', 'subclass-list'])
     return k
+
+
+class StatefulList(list):
+    """a list subclass instance with state of its own"""
+    def __init__(self, items, label):
+        list.__init__(self, items)
+        self.label = label
 
 
 def make_value(kind, rng_state_val, target):
@@ -118,6 +125,12 @@ def make_value(kind, rng_state_val, target):
         return rng_state_val, rng_state_val
     if kind == 'opaque':
         return rng_state_val, rng_state_val
+    if kind == 'subclass-dict':
+        # instances of container SUBCLASSES are values like any other object: stored as they are, not rebuilt
+        from collections import defaultdict
+        return defaultdict(list, {'x': [1]}), defaultdict(list, {'x': [1]})
+    if kind == 'subclass-list':
+        return StatefulList([1, 2], 'tagged'), StatefulList([1, 2], 'tagged')
     if kind == 'list':
         return [1, [2, 3]], [1, [2, 3]]
     if kind == 'dict':
@@ -270,10 +283,13 @@ def run_case(col, rng, recipe, shared, segs, k_exist, purpose):
             col.violation('C11/effect-differs-from-plain-assignment:%s:%s' % (purpose, _dest_kind(nodesA, k_exist, segs)),
                           '%s: after glom %s ; after plain Python %s' % (desc, short(A, 400), short(B, 400)), wit)
             return
-        if vkind == 'opaque':
+        if vkind in ('opaque', 'subclass-dict', 'subclass-list'):
             back = call(_read_back, A, steps)
-            if not back.ok or back.value is not sval:
-                col.violation('C11/read-back-is-not-the-value', '%s: reading the path back gives %r' % (desc, back), wit)
+            if not back.ok or back.value is not (sval if vkind == 'opaque' else valA):
+                col.violation('C11/read-back-is-not-the-value' + ('' if vkind == 'opaque' else ':container-subclass-instance'),
+                              '%s: reading the path back gives %r (a %s with state %r), not the object that was assigned'
+                              % (desc, back, type(back.value).__name__ if back.ok else '-',
+                                 getattr(back.value, 'default_factory', getattr(back.value, 'label', None)) if back.ok else None), wit)
         if facA is not None:
             col.count('factory_counts_checked')
             if facA.calls != facB.calls:
